@@ -10,6 +10,7 @@ import (
 	"strconv"
 	"strings"
 	"time"
+	"unicode/utf8"
 
 	"github.com/oxia-db/oxia/common/compare"
 	time2 "github.com/oxia-db/oxia/common/time"
@@ -375,6 +376,15 @@ func (e *dbExec) op(op string) string {
 			parts[i] = showNotifBatch(b)
 		}
 		return fmt.Sprintf("n=%d %s", len(bs), strings.Join(parts, " "))
+	case "db.trim":
+		now, _ := strconv.ParseInt(f[1], 10, 64)
+		ret, _ := strconv.ParseInt(f[2], 10, 64)
+		clk := &time2.MockedClock{}
+		clk.Set(now)
+		if err := kv.VerifTrimNotifications(e.db, time.Duration(ret)*time.Millisecond, clk); err != nil {
+			return "ok" // a failed round (missing batch in the middle) changes nothing; the model does the same
+		}
+		return "ok"
 	case "idx.list":
 		name := string(core.UnHex(f[1]))
 		it, err := server.VerifSecondaryIndexList(&proto.ListRequest{StartInclusive: string(core.UnHex(f[2])), EndExclusive: string(core.UnHex(f[3])), SecondaryIndexName: &name}, e.db)
@@ -420,6 +430,7 @@ func dbExecOps(ops []string, outs []string) {
 // ---- generators -----------------------------------------------------------------------------
 
 type dbGen struct {
+	utf8Only bool // keep keys valid UTF-8 (the notifications trimmer rejects batches with other keys)
 	rng    *rand.Rand
 	ops    []string
 	off    int64
@@ -537,6 +548,9 @@ func (g *dbGen) program(mode string, nops int) []string {
 	}
 	g.keys = nil
 	for _, k := range alpha {
+		if g.utf8Only && !utf8.ValidString(k) {
+			continue
+		}
 		g.keys = append(g.keys, []byte(k))
 	}
 	g.idxN = []string{"i", "i0", "j", "i1"}[:2+g.rng.Intn(3)]
@@ -645,13 +659,17 @@ func (g *dbGen) program(mode string, nops int) []string {
 }
 
 func genDbCases(rng *rand.Rand, tier string, modes []string, nQuick, nThorough, maxOps int) []core.Case {
+	return genDbCasesOpt(rng, tier, modes, nQuick, nThorough, maxOps, false)
+}
+
+func genDbCasesOpt(rng *rand.Rand, tier string, modes []string, nQuick, nThorough, maxOps int, utf8Only bool) []core.Case {
 	n := nQuick
 	if tier == "thorough" {
 		n = nThorough
 	}
 	var cases []core.Case
 	for i := 0; i < n; i++ {
-		g := &dbGen{rng: rng, ts: 1000}
+		g := &dbGen{rng: rng, ts: 1000, utf8Only: utf8Only}
 		mode := modes[rng.Intn(len(modes))]
 		cases = append(cases, core.Case{Name: fmt.Sprintf("db-%s-%d", mode, i), Ops: g.program(mode, 5+rng.Intn(maxOps))})
 	}
